@@ -2,6 +2,7 @@
 import ast
 
 from ..loader import AnalysisError, norm_stmt
+from ..small import cond_defaults
 
 KB = "krige/base.py"
 BASE = "covmodel/base.py"
@@ -89,7 +90,7 @@ def exact_mode(ctx, rule="R06.2"):
     ctx.check(ok, rule, KB + "::Krige.cond_err", "the default measurement error resolves to the model's current nugget at use time", "getter")
     sc = cm.methods["set_condition"]
     txt = [norm_stmt(s) for s in sc.body]
-    ok = "cond_err = 'nugget' if cond_err is None else cond_err" in txt and "self.cond_err = cond_err" in txt
+    ok = ("cond_err is None", "'nugget'") in [(t, ast.unparse(v)) for t, v in cond_defaults(sc.body, "cond_err")] and "self.cond_err = cond_err" in txt
     ctx.check(ok, rule, KB + "::Krige.set_condition", "missing cond_err defaults to 'nugget' and goes through the validating setter", "default")
     ex = cm.getters["exact"]
     init = cm.methods["__init__"]
